@@ -101,14 +101,7 @@ func ruleColumnAgreement(c *eng.Ctx) {
 		return
 	}
 	labels, _ := caseTable(gcv)
-	stdKeys := map[string]bool{}
-	eng.Instrs(std, false, func(in ssa.Instruction) {
-		if mu, ok := in.(*ssa.MapUpdate); ok {
-			if s, ok := eng.ConstString(mu.Key); ok {
-				stdKeys[s] = true
-			}
-		}
-	})
+	stdKeys := trueStringSet(std)
 	produced := map[string]bool{}
 	prefixes := map[string]bool{}
 	eng.Instrs(coll, false, func(in ssa.Instruction) {
@@ -157,6 +150,96 @@ func ruleColumnAgreement(c *eng.Ctx) {
 	}
 	c.Check(okP, R, "rag column prefix", coll.Pos(), "metadata columns are written and read with the same prefix", fmt.Sprintf("metadata column prefix written %v but read %v", keysOf(prefixes), keysOf(readPrefix)))
 	_ = constant.MakeBool
+}
+
+// trueStringSet is the set of constant strings for which a func(string) bool answers true, read from the three
+// spellings of such a predicate: a local map literal indexed by the parameter, a package-level map literal indexed by
+// it, or comparisons of the parameter with constants (switch / if chain) whose true edge reaches only `return true`.
+func trueStringSet(fn *ssa.Function) map[string]bool {
+	out := map[string]bool{}
+	if len(fn.Params) == 0 {
+		return out
+	}
+	isTrue := func(v ssa.Value) bool {
+		k, ok := v.(*ssa.Const)
+		return ok && k.Value != nil && k.Value.Kind() == constant.Bool && constant.BoolVal(k.Value)
+	}
+	par := ssa.Value(fn.Params[len(fn.Params)-1])
+	addUpdates := func(g *ssa.Function, m func(ssa.Value) bool) {
+		eng.Instrs(g, false, func(in ssa.Instruction) {
+			if mu, ok := in.(*ssa.MapUpdate); ok && m(mu.Map) && isTrue(mu.Value) {
+				if s, ok := eng.ConstString(mu.Key); ok {
+					out[s] = true
+				}
+			}
+		})
+	}
+	eng.Instrs(fn, false, func(in ssa.Instruction) {
+		switch x := in.(type) {
+		case *ssa.Lookup:
+			if x.Index != par {
+				return
+			}
+			if mk, ok := x.X.(*ssa.MakeMap); ok {
+				addUpdates(fn, func(v ssa.Value) bool { return v == ssa.Value(mk) })
+				return
+			}
+			if ld, ok := x.X.(*ssa.UnOp); ok && ld.Op == token.MUL {
+				if g, ok := ld.X.(*ssa.Global); ok && fn.Pkg != nil {
+					if init := fn.Pkg.Func("init"); init != nil {
+						// the literal stored into the global by the package initialiser
+						stored := map[ssa.Value]bool{}
+						eng.Instrs(init, false, func(in ssa.Instruction) {
+							if st, ok := in.(*ssa.Store); ok && st.Addr == ssa.Value(g) {
+								stored[st.Val] = true
+							}
+						})
+						// only if nothing else in the package writes the global or the map
+						addUpdates(init, func(v ssa.Value) bool { return stored[v] })
+					}
+				}
+			}
+		case *ssa.BinOp:
+			if x.Op != token.EQL {
+				return
+			}
+			var k ssa.Value
+			switch {
+			case x.X == par:
+				k = x.Y
+			case x.Y == par:
+				k = x.X
+			default:
+				return
+			}
+			str, ok := eng.ConstString(k)
+			if !ok {
+				return
+			}
+			for _, r := range *x.Referrers() {
+				iff, ok := r.(*ssa.If)
+				if !ok {
+					continue
+				}
+				allTrue, any := true, false
+				for b := range eng.ReachableBlocks([]*ssa.BasicBlock{iff.Block().Succs[0]}, func(*ssa.BasicBlock) bool { return false }) {
+					if len(b.Instrs) == 0 {
+						continue
+					}
+					if ret, ok := b.Instrs[len(b.Instrs)-1].(*ssa.Return); ok {
+						any = true
+						if len(ret.Results) != 1 || !isTrue(ret.Results[0]) {
+							allTrue = false
+						}
+					}
+				}
+				if any && allTrue {
+					out[str] = true
+				}
+			}
+		}
+	})
+	return out
 }
 
 func keysOf(m map[string]bool) []string {
